@@ -3,6 +3,7 @@ import Driver.C19
 import Driver.C12
 import Driver.C13
 import Driver.C11
+import Driver.C10
 
 def dispatch (line : String) : String :=
   match Driver.toks line with
@@ -10,6 +11,7 @@ def dispatch (line : String) : String :=
   | "C12" :: r => Driver.C12.handle r
   | "C13" :: r => Driver.C13.handle r
   | "C11" :: r => Driver.C11.handle r
+  | "C10" :: r => Driver.C10.handle r
   | _ => "bad-request"
 
 partial def loop (h : IO.FS.Stream) (out : IO.FS.Stream) : IO Unit := do
